@@ -73,8 +73,9 @@ def mk_fmt(f, raw_dtype):
 
 
 class Builder:
-    def __init__(self, mode='r', tmpdir=None):
+    def __init__(self, mode='r', tmpdir=None, preset=None):
         self.mode = mode
+        self.preset = list(preset) if preset is not None else None   # leaf arrays to read from (in leaf order)
         self.tmpdir = tmpdir
         self.leaves = []   # (spec, underlying array or file) for write-mode inspection
         self.counter = 0
@@ -97,6 +98,8 @@ class Builder:
         trans = tuple(spec['trans']) if spec.get('trans') is not None else None
         if k in ('array', 'memmap', 'fileread'):
             arr = self.leaf_array(spec)
+            if self.preset is not None:
+                arr = numpy.array(self.preset.pop(0)).astype(arr.dtype).reshape(arr.shape)
             if self.mode == 'w':
                 store = numpy.full(arr.shape, -1 if arr.dtype.kind != 'u' else 255, dtype=arr.dtype)
             else:
